@@ -6,12 +6,47 @@ the OCaml driver of the extracted Coq model (ocaml/C08/c08_driver) parses.  Hand
 live objects in creation order; atoms are always named as (object handle, index)."""
 import copy as copymod
 import pickle
+import re
 import signal
 
 import numpy
 
 MAXLEN = 14          # the generator keeps containers below this size
 ALARM_S = 2.0        # wall-clock bound that maps a call to the outcome "div"
+
+
+ELEMENTS = ["C", "Na", "Cl", "O", "Fe", "Ni", "Si", "Ti"]
+COLS = ["element", "label", "xyz", "occupancy"]
+
+
+def label_str(t):
+    """label tag -> string: t >= 0 -> 'L<t>'; -(1000 e + n) -> '<symbol e><n>' (what assignUniqueLabels writes)"""
+    if t >= 0:
+        return "L%d" % t
+    e, n = divmod(-t, 1000)
+    return "%s%d" % (ELEMENTS[e], n) if 0 <= e < len(ELEMENTS) else "?%d" % t
+
+
+def label_tag(lab):
+    lab = str(lab)
+    m = re.match(r"^L(\d+)$", lab)
+    if m:
+        return int(m.group(1))
+    m = re.match(r"^([A-Z][a-z]?)(\d+)$", lab)
+    if m and m.group(1) in ELEMENTS:
+        return -(1000 * ELEMENTS.index(m.group(1)) + int(m.group(2)))
+    return -999999
+
+
+def xyz_vec(x):
+    return [x * 0.125, 0.25, 0.5]
+
+
+def decode(a):
+    """payload tuple (element, label, xyz, occupancy tags) of a real Atom"""
+    el = str(a.element)
+    e = ELEMENTS.index(el) if el in ELEMENTS else -999999
+    return (e, label_tag(a.label), int(round(float(a.xyz[0]) / 0.125)), int(round(float(a.occupancy) * 8)))
 
 
 class Diverged(BaseException):
@@ -37,11 +72,10 @@ def _tok(x):
 def op_text(op):
     name = op[0]
     a = op[1:]
-    if name in ("NewList", "SetCol"):
-        # (h?, list)
-        if name == "NewList":
-            return "NewList %d %s" % (len(a[0]), " ".join(map(_tok, a[0])))
-        return "SetCol %d %d %s" % (a[0], len(a[1]), " ".join(map(_tok, a[1])))
+    if name == "NewList":
+        return "NewList %d %s" % (len(a[0]), " ".join(" ".join(map(_tok, p)) for p in a[0]))
+    if name == "SetCol":
+        return "SetCol %d %d %d %s" % (a[0], a[1], len(a[2]), " ".join(map(_tok, a[2])))
     if name == "ListOf":
         return "ListOf %d %s" % (len(a[0]), " ".join("%d %d" % r for r in a[0]))
     if name == "GetIdx":
@@ -68,9 +102,11 @@ def op_from_json(o):
         return tuple(tup(y) for y in x) if isinstance(x, list) else x
     name = o[0]
     if name in ("NewList",):
-        return (name, list(o[1]))
+        return (name, [tuple(p) for p in o[1]])
     if name == "SetCol":
-        return (name, o[1], list(o[2]))
+        return (name, o[1], o[2], list(o[3]))
+    if name == "AddNewAtom":
+        return (name, o[1], tuple(o[2]))
     if name == "ListOf":
         return (name, [tuple(r) for r in o[1]])
     if name == "GetIdx":
@@ -82,7 +118,10 @@ def op_from_json(o):
 
 # ------------------------------------------------------------------ executor on the real objects
 
-LAT_ARGS = [(3.0, 4.0, 5.0, 90, 90, 90), (2.5, 2.5, 6.1, 90, 90, 120), (4.1, 4.2, 4.3, 80, 95, 100), (1, 1, 1, 90, 90, 90)]
+# every lattice the harness creates has the default cell (like the Lattice() that Structure() makes): C08 is
+# about lattice OBJECT identity, and with equal cells placeInLattice leaves the xyz payload unchanged (its
+# coordinate transformation is C14's subject)
+LAT_ARGS = [(1.0, 1.0, 1.0, 90, 90, 90)]
 
 
 class Real:
@@ -114,9 +153,9 @@ class Real:
             raise IndexError("no such object")
         return list.__getitem__(self.objs[o], i)
 
-    def new_atom(self, tag):
-        a = self.Atom("C", xyz=[(tag % 7) / 7.0, (tag % 5) / 5.0, (tag % 3) / 3.0], label="L%d" % tag)
-        return a
+    def new_atom(self, pay):
+        e, l, x, o = pay
+        return self.Atom(ELEMENTS[e], xyz=xyz_vec(x), label=label_str(l), occupancy=o / 8.0)
 
     def latarg(self, k):
         if k == -2:
@@ -152,6 +191,8 @@ class Real:
             return ("raise", type(e).__name__)
         if r is None:
             return ("done", "none", None)
+        if isinstance(r, Vals):
+            return ("done", "vals", tuple(r))
         if isinstance(r, self.Atom):
             self.graveyard.append(r)
             return ("done", "atom", id(r))
@@ -180,7 +221,8 @@ class Real:
 
     def op_AddNewAtom(self, h, t):
         self.need_struct(h)
-        self.objs[h].addNewAtom("C", xyz=[0.1, 0.2, (t % 10) / 10.0], label="L%d" % t)
+        e, l, x, o = t
+        self.objs[h].addNewAtom(ELEMENTS[e], xyz=xyz_vec(x), label=label_str(l), occupancy=o / 8.0)
 
     def op_Construct(self, s, la):
         self.need_obj(s)
@@ -224,7 +266,7 @@ class Real:
 
     def op_GetIdx(self, h, tup, items):
         self.need_struct(h)
-        idx = [("L%d" % v) if k else v for k, v in items]
+        idx = [label_str(v) if k else v for k, v in items]
         allint = all(k == 0 for k, _ in items)
         if tup:
             idx = tuple(idx)
@@ -241,7 +283,7 @@ class Real:
 
     def op_GetLabel(self, h, t):
         self.need_struct(h)
-        return self.objs[h]["L%d" % t]
+        return self.objs[h][label_str(t)]
 
     def op_SetInt(self, h, i, ref, copy):
         self.need_struct(h)
@@ -352,13 +394,52 @@ class Real:
         self.need_struct(h)
         return self.objs[h].tolist() if h % 2 else list(self.objs[h])
 
-    def op_SetCol(self, h, tags):
+    def op_SetCol(self, h, col, tags):
         self.need_struct(h)
-        labs = ["L%d" % t for t in tags]
-        if len(labs) == 1 and tags[0] % 2:
-            self.objs[h].label = labs[0]
+        conv = [lambda v: ELEMENTS[v], label_str, xyz_vec, lambda v: v / 8.0][col]
+        vals = [conv(t) for t in tags]
+        if len(vals) == 1 and tags[0] % 2 and col != 2:
+            setattr(self.objs[h], COLS[col], vals[0])          # scalar form
+        elif col == 2 and len(vals) == 1 and tags[0] % 2:
+            setattr(self.objs[h], "xyz", vals[0])              # one row, broadcast
         else:
-            self.objs[h].label = labs
+            setattr(self.objs[h], COLS[col], vals)
+
+    def op_Sort(self, h, key, rev):
+        self.need_struct(h)
+        kw = {}
+        if key >= 0:
+            kw["key"] = lambda a: decode(a)[key]
+        if rev or h % 2:
+            kw["reverse"] = bool(rev)
+        self.objs[h].sort(**kw)
+
+    def op_AssignUniqueLabels(self, h):
+        self.need_struct(h)
+        self.objs[h].assignUniqueLabels()
+
+    def op_GetLast(self, h):
+        self.need_struct(h)
+        return self.objs[h].getLastAtom()
+
+    def op_GetCol(self, h, col):
+        self.need_struct(h)
+        arr = getattr(self.objs[h], COLS[col])
+        if col == 0:
+            return Vals([ELEMENTS.index(str(x)) if str(x) in ELEMENTS else -999999 for x in arr])
+        if col == 1:
+            return Vals([label_tag(x) for x in arr])
+        if col == 2:
+            arr = numpy.asarray(arr, dtype=float).reshape(-1, 3)
+            return Vals([int(round(r[0] / 0.125)) for r in arr])
+        return Vals([int(round(float(x) * 8)) for x in arr])
+
+    def op_Composition(self, h):
+        self.need_struct(h)
+        out = []
+        for el, occ in self.objs[h].composition.items():
+            out += [ELEMENTS.index(str(el)) if str(el) in ELEMENTS else -999999, int(round(float(occ) * 8))]
+        return Vals(out)
 
     # -- observation
     def snapshot(self, outcome):
@@ -372,17 +453,16 @@ class Real:
                 objs.append(("L", None, [id(a) for a in o]))
             for a in list.__iter__(o):
                 if id(a) not in atoms:
-                    lab = a.label
-                    try:
-                        tag = int(str(lab)[1:])
-                    except ValueError:
-                        tag = -999
-                    atoms[id(a)] = (tag, id(a.lattice) if a.lattice is not None else None)
+                    atoms[id(a)] = (decode(a), id(a.lattice) if a.lattice is not None else None)
         return (outcome, objs, atoms)
 
 
 class _Bad(Exception):
     pass
+
+
+class Vals(list):
+    """a list of integer tags returned by a column read / composition"""
 
 
 def canon(snap):
@@ -426,6 +506,8 @@ def parse_model_line(line):
             outcome = ("done", "none", None)
         elif r[2] == "atom":
             outcome = ("done", "atom", int(r[3]))
+        elif r[2] == "vals":
+            outcome = ("done", "vals", tuple(int(x) for x in r[3:]))
         else:
             outcome = ("done", "obj", int(r[3]))
     elif r[1] == "raise":
@@ -447,7 +529,7 @@ def parse_model_line(line):
     htxt = parts[3][1:].split()
     for i, c in enumerate(htxt):
         tag, lat = c.split(":")
-        atoms[i] = (int(tag), None if lat == "N" else int(lat))
+        atoms[i] = (tuple(int(x) for x in tag.split(",")), None if lat == "N" else int(lat))
     return (outcome, objs, atoms), flags
 
 
@@ -505,6 +587,28 @@ class Oracle:
                 return (op[1], P[op[1]] + P[op[2]])
             if name == "AddNewAtom":
                 return (op[1], P[op[1]] + [None])
+            if name in ("SetCol", "AssignUniqueLabels"):
+                if name == "SetCol" and len(P[op[1]]) and len(op[3]) not in (1, len(P[op[1]])):
+                    raise ValueError
+                return (op[1], list(P[op[1]]))
+            if name == "Sort":
+                b = list(P[op[1]])
+                if op[2] < 0:
+                    if len(b) > 1:
+                        raise TypeError
+                else:
+                    b.sort(key=lambda a: decode(a)[op[2]], reverse=bool(op[3]))
+                return (op[1], b)
+            if name == "GetLast":
+                return ("atom", P[op[1]][-1])
+            if name == "GetCol":
+                return ("vals", [decode(a)[op[2]] for a in P[op[1]]])
+            if name == "Composition":
+                tot = {}
+                for a in P[op[1]]:
+                    d = decode(a)
+                    tot[d[0]] = tot.get(d[0], 0) + d[3]
+                return ("vals", [x for kv in tot.items() for x in kv])
             if name == "SetInt":
                 b = list(P[op[1]])
                 a = ref(op[3])
@@ -567,7 +671,7 @@ class Oracle:
                 sel = []
                 for k, v in op[3]:
                     if k:
-                        hits = [i for i, a in enumerate(b) if str(a.label) == "L%d" % v]
+                        hits = [i for i, a in enumerate(b) if str(a.label) == label_str(v)]
                         if len(hits) != 1:
                             raise IndexError
                         v = hits[0]
@@ -579,11 +683,11 @@ class Oracle:
                 b = P[op[1]]
                 return ("atom", b[op[2]])
             if name == "GetLabel":
-                hits = [a for a in P[op[1]] if str(a.label) == "L%d" % op[2]]
+                hits = [a for a in P[op[1]] if str(a.label) == label_str(op[2])]
                 if len(hits) != 1:
                     raise IndexError
                 return ("atom", hits[0])
-        except (IndexError, ValueError):
+        except (IndexError, ValueError, TypeError):
             return ("raise",)
         return None
 
@@ -614,7 +718,7 @@ class Oracle:
             seen = set()
             for k, v in op[3]:
                 if k:
-                    hits = [i for i, a in enumerate(b) if str(a.label) == "L%d" % v]
+                    hits = [i for i, a in enumerate(b) if str(a.label) == label_str(v)]
                     v = hits[0] if len(hits) == 1 else None
                 elif n:
                     v = v % n
@@ -653,6 +757,10 @@ class Oracle:
             elif exp[0] == "atom":
                 if not (outcome[1] == "atom" and outcome[2] == id(exp[1])):
                     out.append(("list:%s:result" % name, "%s returned another object than the plain list lookup" % op_text(op), None))
+            elif exp[0] == "vals":
+                if not (outcome[1] == "vals" and list(outcome[2]) == list(exp[1])):
+                    out.append(("column:%s:values" % name, "%s returned %s, the atoms of the plain list give %s" % (
+                        op_text(op), list(outcome[2]) if outcome[1] == "vals" else outcome, list(exp[1])), None))
             else:
                 target = outcome[2] if exp[0] == "new" else exp[0]
                 if exp[0] == "new" and not (outcome[1] == "obj" and outcome[2] >= self.pre_n):
@@ -663,10 +771,26 @@ class Oracle:
                 if target is not None:
                     got = post_lists[target]
                     want = exp[1]
-                    gl = [str(a.label) for a in got]
-                    wl = [("L%d" % op[2]) if a is None else str(a.label) for a in want]
+                    gl = [decode(a) for a in got]
+                    wl = [tuple(op[2]) if a is None else decode(a) for a in want]
                     if gl != wl:
-                        out.append(("list:%s:sequence" % name, "%s: labels %s, the same operation on a plain list gives %s" % (op_text(op), gl, wl), None))
+                        out.append(("list:%s:sequence" % name, "%s: payloads (element, label, xyz, occupancy) %s, the same operation on a plain list gives %s" % (op_text(op), gl, wl), None))
+                    # payload-only operations keep every identity; whole-column assignment writes the given column
+                    if name in ("SetCol", "AssignUniqueLabels", "Sort") and sorted(map(id, got)) != sorted(map(id, want)):
+                        out.append(("column:%s:identity" % name, "%s changed the atom objects of the container" % op_text(op), None))
+                    if name == "SetCol" and got:
+                        vals = list(op[3]) * len(got) if len(op[3]) == 1 else list(op[3])
+                        last = {}
+                        for a, v in zip(got, vals):
+                            last[id(a)] = v
+                        if any(decode(a)[op[2]] != last[id(a)] for a in got):
+                            out.append(("column:SetCol:values", "%s: column reads back %s" % (op_text(op), [decode(a)[op[2]] for a in got]), None))
+                    if name == "AssignUniqueLabels":
+                        labs = {}
+                        for a in got:
+                            labs.setdefault(str(a.label), set()).add(id(a))
+                        if any(len(v) > 1 for v in labs.values()):
+                            out.append(("column:AssignUniqueLabels:not-unique", "%s: two atom objects share a label" % op_text(op), None))
                     # (4) selections share exactly the selected objects and the receiver's lattice
                     if name in SELECT_OPS or name == "Tolist":
                         if [id(a) for a in got] != [id(a) for a in want]:
@@ -748,6 +872,10 @@ class Gen:
         self.tag += 1
         return self.tag
 
+    def fresh_pay(self):
+        rng = self.rng
+        return (rng.choice([0, 0, 0, 1, 2, 3, 4, 7]), self.fresh_tag(), rng.randrange(16), rng.choice([8, 8, 8, 4, 2, 6]))
+
     def structs(self):
         return [i for i, o in enumerate(self.R.objs) if isinstance(o, self.R.Structure)]
 
@@ -758,9 +886,9 @@ class Gen:
         rng = self.rng
         ops = [("NewStruct",)]
         for _ in range(rng.choice([0, 1, 2, 3, 3, 4, 5])):
-            ops.append(("AddNewAtom", 0, self.fresh_tag()))
+            ops.append(("AddNewAtom", 0, self.fresh_pay()))
         if rng.random() < 0.5:
-            ops.append(("NewList", [self.fresh_tag() for _ in range(rng.choice([0, 1, 2, 3]))]))
+            ops.append(("NewList", [self.fresh_pay() for _ in range(rng.choice([0, 1, 2, 3]))]))
         if rng.random() < 0.3:
             ops.append(("NewStruct",))
         return ops
@@ -808,14 +936,15 @@ class Gen:
         def lab(invalid=False):
             if invalid or not labels:
                 return 900 + rng.randrange(5)
-            return int(rng.choice(labels)[1:])
+            return label_tag(rng.choice(labels))
 
         choices = [
             (3, "AddNewAtom"), (1, "NewList"), (2, "ListOf"), (2, "Construct"), (4, "Append"), (4, "Insert"),
             (5, "Extend"), (3, "GetInt"), (5, "GetSlice"), (4, "GetIdx"), (3, "GetMask"), (3, "GetLabel"),
             (4, "SetInt"), (6, "SetSlice"), (3, "DelInt"), (3, "DelSlice"), (2, "Pop"), (2, "Remove"), (2, "Reverse"),
             (1, "Clear"), (3, "Add"), (3, "Sub"), (2, "Mul"), (3, "IAdd"), (3, "ISub"), (2, "IMul"), (3, "Copy"),
-            (2, "CopyInto"), (4, "SetLattice"), (3, "Pickle"), (2, "DeepCopy"), (2, "Tolist"), (2, "SetCol"), (1, "NewStruct"),
+            (2, "CopyInto"), (4, "SetLattice"), (3, "Pickle"), (2, "DeepCopy"), (2, "Tolist"), (3, "SetCol"), (1, "NewStruct"),
+            (2, "Sort"), (2, "AssignUniqueLabels"), (1, "GetLast"), (3, "GetCol"), (2, "Composition"),
         ]
         if big or many:
             grow = {"Extend", "IAdd", "IMul", "Mul", "Add", "Append", "Insert", "AddNewAtom"}
@@ -832,9 +961,9 @@ class Gen:
         if name == "NewStruct":
             return ("NewStruct",)
         if name == "AddNewAtom":
-            return (name, h, self.fresh_tag())
+            return (name, h, self.fresh_pay())
         if name == "NewList":
-            return (name, [self.fresh_tag() for _ in range(rng.choice([0, 1, 2, 3]))])
+            return (name, [self.fresh_pay() for _ in range(rng.choice([0, 1, 2, 3]))])
         if name == "ListOf":
             return (name, [self.aref(inv and k == 0) for k in range(rng.choice([0, 1, 2, 3, 4]))])
         if name == "Construct":
@@ -909,11 +1038,27 @@ class Gen:
         if name == "Pickle":
             return (name, h, rng.random() < 0.6)
         if name == "SetCol":
+            col = rng.choice([0, 1, 1, 2, 3])
+
+            def val():
+                if col == 0:
+                    return rng.randrange(len(ELEMENTS))
+                if col == 1:
+                    return self.fresh_tag() if rng.random() < 0.8 else max(lab(), 0)
+                if col == 2:
+                    return rng.randrange(16)
+                return rng.choice([8, 4, 2, 6, 1])
             if inv:
-                return (name, h, [self.fresh_tag() for _ in range(n + 2)])
+                return (name, h, col, [val() for _ in range(n + 2)])
             if rng.random() < 0.3:
-                return (name, h, [self.fresh_tag()])
-            return (name, h, [self.fresh_tag() if rng.random() < 0.8 else lab() for _ in range(n)])
+                return (name, h, col, [val()])
+            return (name, h, col, [val() for _ in range(n)])
+        if name == "Sort":
+            return (name, h, rng.choice([-1, 0, 1, 1, 2, 3]), rng.random() < 0.4)
+        if name in ("AssignUniqueLabels", "GetLast", "Composition"):
+            return (name, h)
+        if name == "GetCol":
+            return (name, h, rng.randrange(4))
         raise AssertionError(name)
 
 
